@@ -245,7 +245,8 @@ def atof (s : List Char) : Float :=
     if m < 2 ^ 53 ∧ -22 ≤ e ∧ e ≤ 22 then decToFloat m e
     else if e ≥ 0 then Float.ofNat (m * 10 ^ e.toNat)
     else Float.ofScientific m true (-e).toNat
-  if neg then -x else x
+  -- no digits after the optional sign ("- 5"): strtod converts nothing and returns +0.0
+  if ip.isEmpty ∧ fp.isEmpty then 0.0 else if neg then -x else x
 
 /-- the sign of a signed string ("-0xF") is applied once the literal has its type: `primitive::negative(p)`
     (only in the code that types literals by value; before that the sign went into the digits) -/
@@ -256,52 +257,57 @@ def applySign (negative : Bool) (q : Ty × Int) : Prim :=
     | _ => ⟨some q.1, q.2⟩
   else ⟨some q.1, q.2⟩
 
+/-- the part of primitive::load after loadHex / loadBinary returned `p`: suffix loop and typing.
+    `s` is the text after the digits. -/
+def finishFormatted (loadRec : List Char → Prim × List Char) (p : Prim) (s : List Char) (negative : Bool) :
+    Prim × List Char :=
+  let st := scanSuffix loadRec true s ⟨0, false, false, false, s⟩
+  match toT .ulong p with                                           -- `p.to<uint64_t>()`
+  | .ok x => (applySign negative (integerLiteral x.v.toNat false st.unsigned_ st.longs), st.rest)
+  | _ => (Prim.none, st.rest)
+
+/-- the part of primitive::load for text that is not a hex / binary literal: digit loop, suffix loop,
+    then a floating or an integer (decimal / octal) literal.  `c0` is the start of the text (sign
+    included), `cDigits` the text after the sign. -/
+def finishPlain (loadRec : List Char → Prim × List Char) (c0 cDigits : List Char) (negative : Bool) :
+    Prim × List Char :=
+  let (digits, decimal, s) := scanDigits cDigits (if hd cDigits = '0' then 1 else 0) false
+  let cDigitsEnd := s
+  if digits = 0 then (Prim.none, c0)
+  else
+    let st := scanSuffix loadRec false s ⟨0, false, decimal, false, s⟩
+    if st.decimal ∨ st.float_ then
+      let consumed := c0.take (c0.length - st.rest.length)
+      if st.float_ then (⟨some .float, b32 (atof consumed).toFloat32⟩, st.rest)
+      else (⟨some .double, b64 (atof consumed)⟩, st.rest)
+    else
+      let ds := cDigits.take (cDigits.length - cDigitsEnd.length)
+      let isDecimal := hd cDigits ≠ '0'
+      let mag := if isDecimal then decVal ds else octVal ds
+      let value := if negative ∧ !literalTypedByValue then (two64 - mag) % two64 else mag
+      (applySign negative (integerLiteral value isDecimal st.unsigned_ st.longs), st.rest)
+
 /-- primitive::load(const char *&c, bool includeSign); returns the primitive and `c` afterwards.
     `fuel` bounds the recursion through the exponent (`primitive::load(++c)`). -/
 def load : Nat → List Char → Bool → Prim × List Char
   | 0, s, _ => (Prim.none, s)
-  | fuel + 1, s, includeSign =>
-    let c0 := s
-    if "true".toList.isPrefixOf s then (⟨some .bool, 1⟩, s.drop 4)
-    else if "false".toList.isPrefixOf s then (⟨some .bool, 0⟩, s.drop 5)
+  | fuel + 1, c0, includeSign =>
+    if "true".toList.isPrefixOf c0 then (⟨some .bool, 1⟩, c0.drop 4)
+    else if "false".toList.isPrefixOf c0 then (⟨some .bool, 0⟩, c0.drop 5)
     else
-      let signed := hd s = '+' ∨ hd s = '-'
-      if signed ∧ !includeSign then (Prim.none, s)
+      let signed := hd c0 = '+' ∨ hd c0 = '-'
+      if signed ∧ !includeSign then (Prim.none, c0)
       else
-        let negative := hd s = '-'
-        let s := if signed then skipWs (s.drop 1) else s
+        let negative := hd c0 = '-'
+        let s := if signed then skipWs (c0.drop 1) else c0
         -- `if (*c == '0')`: hex / binary prefix
         let C := upper (hd (s.drop 1))
-        let isFmt := hd s = '0' ∧ (C = 'B' ∨ C = 'X')
-        let (p, s, fmtOk) : Prim × List Char × Bool :=
-          if isFmt then
-            let neg' := if literalTypedByValue then false else negative
-            let (p, r) := if C = 'B' then loadBinary (s.drop 2) neg' else loadHex (s.drop 2) neg'
-            (p, r, p.ty.isSome)
-          else (Prim.none, s, true)
-        if !fmtOk then (Prim.none, c0)
-        else
-          let cDigits := s
-          let (digits, decimal, s) :=
-            if isFmt then (1, false, s) else scanDigits s (if hd s = '0' then 1 else 0) false
-          let cDigitsEnd := s
-          if !isFmt ∧ digits = 0 then (Prim.none, c0)
-          else
-            let st := scanSuffix (fun t => load fuel t true) isFmt s ⟨0, false, decimal, false, s⟩
-            let consumed := c0.take (c0.length - st.rest.length)
-            if isFmt then
-              match toT .ulong p with
-              | .ok x => (applySign negative (integerLiteral x.v.toNat false st.unsigned_ st.longs), st.rest)
-              | _ => (Prim.none, st.rest)
-            else if st.decimal ∨ st.float_ then
-              if st.float_ then (⟨some .float, b32 (atof consumed).toFloat32⟩, st.rest)
-              else (⟨some .double, b64 (atof consumed)⟩, st.rest)
-            else
-              let ds := cDigits.take (cDigits.length - cDigitsEnd.length)
-              let isDecimal := hd cDigits ≠ '0'
-              let mag := if isDecimal then decVal ds else octVal ds
-              let value := if negative ∧ !literalTypedByValue then (two64 - mag) % two64 else mag
-              (applySign negative (integerLiteral value isDecimal st.unsigned_ st.longs), st.rest)
+        if hd s = '0' ∧ (C = 'B' ∨ C = 'X') then
+          let neg' := if literalTypedByValue then false else negative
+          let (p, r) := if C = 'B' then loadBinary (s.drop 2) neg' else loadHex (s.drop 2) neg'
+          if p.ty.isNone then (Prim.none, c0)
+          else finishFormatted (fun t => load fuel t true) p r negative
+        else finishPlain (fun t => load fuel t true) c0 s negative
 
 /-- tokenizer_t::getPrimitiveToken: `primitive::load(fp.start)` on the text of the token -/
 def loadTok (text : List Char) : Prim := (load (text.length + 1) text true).1
